@@ -44,6 +44,9 @@ CHECKS = {
  'C12': ('libx+dfax', 'bounded-exhaustive enumeration of the AppArmor-3 rule universes and of merged+formatted pairs; for each, the policy apparmor_parser compiles from the library text is compared with the policy compiled from an independent reference spelling by exhaustive DFA product exploration',
          'Acceptance and meaning are decided by the reference parser itself: both texts are compiled and every reachable state pair of the two policy DFAs (and every non-DFA field) is compared. 22 thousand cases in the thorough tier.',
          'reference printer in engine/gox/cmd/c12x validated by requiring different rules to compile differently; apparmor_parser 3.0.8', 'DESIGN.md §4 C12'),
+ 'C03': ('libx', 'bounded-exhaustive enumeration of every text of <= 5 lines over a directive line alphabet (4 wrappers) and of every shipped file with an only/exclude directive, x all 30 targets, on the real directive.Run, against a line-based reference model',
+         'Every (text, target) pair inside the bound is executed on the real code; the distribution/family pair is the build\'s own (one process per DISTRIBUTION). 5 x 10 million runs in the thorough tier.',
+         'reference model in engine/gox/cmd/c03x (documented family table, documented paragraph form)', 'DESIGN.md §4 C03'),
 }
 PENDING = {}
 def main():
